@@ -606,8 +606,12 @@ package bkl
 //@   property C07
 //@   property C09 shallow   -- which error validate reports depends on map order; only "it failed" may be used (propagated as it is)
 //@   propagates all   [C09] [C07] [C14]
+//@   property C14, C06   -- the entry of $encode: the transforms get the evaluated subtree itself (validated, not finalized: the $$ -> $ unescape happens once, at output)
 //@   at call process2EncodeAny#1
 //@     assert (noMarker obj2)                                                                             [C07] [C14]
+//@     assert (= obj@arg obj2)                                                                            [C14] [C06]
+//@   at call validate#1
+//@     assert (= obj@arg obj2)                                                                            [C14] [C07]
 //@ func process2Decode(obj, mergeFrom, mergeFromDocs, ec, v, depth) (res, err)
 //@   propagates all   [C08]
 //@   decreases (- 1002 depth) 5
@@ -620,8 +624,10 @@ package bkl
 //@   propagates all   [C08]
 //@   decreases (- 1002 depth) 3
 //@   property C04
+//@   property C12, C13, C14 shallow   -- what $decode yields is the EVALUATION of the decoded document (interpolation, $env, $repeat variables inside the decoded text are resolved in the caller's context)
 //@   at call process2#1
 //@     assert (=> (decShape (hd (ls decs))) (canon dec))                                                  [C04] [C14]
+//@     assert (and (= obj@arg dec) (= ec@arg ec))                                                         [C13] [C12] [C14]
 //@   requires ((_ is VMap) obj)
 //@   ensures (=> (= (select (mc obj) "$value") VAbsent) (isErr err))                                       [C14]
 //@   ensures (=> (not ((_ is VStr) (select (mc obj) "$value"))) (isErr err))                               [C14]
@@ -743,6 +749,7 @@ package bkl
 //@               (=> ((_ is VList) m) (listPathOK (heap Document.Data) (Document.Data mergeFrom) mergeFromDocs (ls m) x false)))))
 
 //@ func mergeDocs(doc, patch) (err)
+//@   property C01, C03, C04, C07, C10, C12, C13, C14, C17 shallow   -- how a layer reaches its targets: a $required in one document is satisfied only by an override of THAT document (no value shared between targets), and a failing merge surfaces
 //@   propagates all   [C08] [C20] [C07] [C03]
 //@   property C02
 //@   modifies Document.Data[doc], Document.Parents[patch]
@@ -755,6 +762,7 @@ package bkl
 //@              (store (old (heap Document.Parents)) patch (rapp (old (Document.Parents patch)) (RCons doc RNil)))))
 
 //@ func Parser.MergeDocument(p, patch) (err)
+//@   property C01, C03, C04, C07, C10, C12, C13, C14, C17 shallow   -- how a layer reaches its targets: a $required in one document is satisfied only by an override of THAT document (no value shared between targets), and a failing merge surfaces
 //@   propagates all   [C08] [C20] [C07] [C03]
 //@   property C02
 //@   property C01
@@ -780,6 +788,7 @@ package bkl
 //@     invariant (appliedTo (old (heap Document.Data)) (heap Document.Data) done (old (Document.Data patch)))
 //@     invariant (not (anyRejected (old (heap Document.Data)) done (old (Document.Data patch))))
 //@ func Parser.mergePatchMatch(p, patch) (matched, err)
+//@   property C01, C03, C04, C07, C10, C12, C13, C14, C17 shallow   -- how a layer reaches its targets: a $required in one document is satisfied only by an override of THAT document (no value shared between targets), and a failing merge surfaces
 //@   propagates all   [C08] [C20] [C07] [C03]
 //@   property C02
 //@   modifies Parser.docs, Document.Data, Document.Parents, Document.ID
